@@ -13,7 +13,9 @@ import (
 	"verif/internal/core"
 )
 
-func init() { Registry["C12"] = withErrRules(checkC12, "envelope", "protocol/binary", "protocol", "envelope", "internal/envelope", "internal/multiplex") }
+func init() {
+	Registry["C12"] = withErrRules(checkC12, "envelope", "protocol/binary", "protocol", "envelope", "internal/envelope", "internal/multiplex")
+}
 
 var (
 	reFirstRead = regexp.MustCompile(`\(io\.Reader(At)?\)\.Read(At)?\(alloc:\w+\[c:0:c:2\](,c:0)?\)#0`)
